@@ -68,9 +68,12 @@ func (t *Term) IsFalse() bool { return t.K == KBool && !t.B }
 func (t *Term) IsLit() bool   { return t.K == KInt }
 
 func sym(s string) string {
+	// map a few characters to legal simple-symbol characters so that most names need no |quoting|
+	// (cvc5 1.0 mishandles quoted constructor names inside (_ is ...))
+	s = strings.NewReplacer(":", "!", "[", "<", "]", ">", "#", "%").Replace(s)
 	simple := s != ""
 	for _, c := range s {
-		if !(c >= 'a' && c <= 'z' || c >= 'A' && c <= 'Z' || c >= '0' && c <= '9' || c == '_' || c == '.' || c == '!' || c == '$' || c == '-') {
+		if !(c >= 'a' && c <= 'z' || c >= 'A' && c <= 'Z' || c >= '0' && c <= '9' || strings.ContainsRune("~!@$%^&*_-+=<>.?/", c)) {
 			simple = false
 			break
 		}
@@ -81,6 +84,12 @@ func sym(s string) string {
 	s = strings.ReplaceAll(s, "|", "¦")
 	s = strings.ReplaceAll(s, "\\", "/")
 	return "|" + s + "|"
+}
+
+// unsym inverts sym for sort / constructor names.
+func unsym(s string) string {
+	s = strings.Trim(s, "|")
+	return strings.NewReplacer("!", ":", "<", "[", ">", "]", "%", "#").Replace(s)
 }
 
 func (t *Term) String() string {
@@ -768,8 +777,7 @@ func (r *Registry) Apply(name string, args ...*Term) *Term {
 		return App(name, sym(dt.Name), args...)
 	}
 	if strings.HasPrefix(name, "(_ is ") {
-		c := strings.TrimSuffix(strings.TrimPrefix(name, "(_ is "), ")")
-		c = strings.Trim(c, "|")
+		c := unsym(strings.TrimSuffix(strings.TrimPrefix(name, "(_ is "), ")"))
 		a := args[0]
 		if a.K == KApp {
 			if _, isC := r.ctorOf[a.Name]; isC {
@@ -907,7 +915,7 @@ func (r *Registry) BuildScript(asserts []*Term, logicOpts string) *Script {
 	var visitSort func(s string)
 	visitSort = func(s string) {
 		for _, a := range sortAtoms(s) {
-			a = strings.Trim(a, "|")
+			a = unsym(a)
 			if dt, ok := r.dts[a]; ok {
 				if needDT[a] {
 					continue
